@@ -160,7 +160,15 @@ func (x *Exec) objVal(obj types.Object, st *State, pos token.Pos) Val {
 		if o.Pkg() != nil && o.Parent() == o.Pkg().Scope() {
 			// package-level variable: unknown value, stable within the function
 			n := "glob_" + o.Pkg().Name() + "_" + o.Name()
-			x.c.declare(n, fmt.Sprintf("(declare-fun %s () %s)", n, x.c.sortOf(o.Type())))
+			if !x.c.declared[n] {
+				x.c.declare(n, fmt.Sprintf("(declare-fun %s () %s)", n, x.c.sortOf(o.Type())))
+				// a package-level error variable initialised with errors.New / fmt.Errorf is non-nil (assuming it is never
+				// reassigned, which is checked syntactically over the package)
+				if isError(o.Type()) && x.g.errVarInitNonNil(o) {
+					x.c.assumes = append(x.c.assumes, not(eq(n, "err.nil")))
+					x.c.notes["package-level error variable "+o.Pkg().Name()+"."+o.Name()+" is initialised non-nil and never reassigned"] = true
+				}
+			}
 			v := Val{T: n, Ty: o.Type()}
 			return v
 		}
@@ -519,6 +527,9 @@ func (x *Exec) toIndex(v Val, keySort string) string {
 		if isByte(v.Ty) {
 			return v.T
 		}
+		if h, args, ok := splitSexp(x.c.resolveDef(v.T)); ok && h == "rune.ofbyte" {
+			return args[0] // ASCII rune of a byte: the byte itself (guarded by the ascii obligation below)
+		}
 		return app("(_ int2bv 8)", v.T)
 	}
 	if isByte(v.Ty) {
@@ -553,7 +564,11 @@ func (x *Exec) evalIndex(n *ast.IndexExpr, st *State, env *Env) Val {
 		if ks == "Int" {
 			x.safety("index", n, st, and(app("<=", "0", it), app("<", it, intLit(u.Len()))), "index in range")
 		} else if idxv.Ty != nil && !isByte(idxv.Ty) {
-			x.safety("index", n, st, and(app("<=", "0", idxv.T), app("<", idxv.T, "256")), "index in range")
+			if h, args, ok := splitSexp(x.c.resolveDef(idxv.T)); ok && h == "rune.ofbyte" {
+				x.safety("index", n, st, app("bvult", args[0], "#x80"), "rune index in range (ASCII byte)")
+			} else {
+				x.safety("index", n, st, and(app("<=", "0", idxv.T), app("<", idxv.T, "256")), "index in range")
+			}
 		}
 		return Val{T: app("select", base.T, it), Ty: u.Elem()}
 	case *types.Map:
